@@ -13,8 +13,8 @@ from gridrv.oracles import datafiles, presets_c05, sph
 PROP = "C05"
 TITLE = "An atomic grid is exactly the product of its radial grid and per-shell spheres"
 REQUIRED_HOOKS = ["AtomGrid.__init__", "AtomGrid.get_shell_grid", "AtomGrid.from_pruned", "AtomGrid.from_preset"]
-REQUIRED_FAMILIES = ["identity", "pruned", "preset", "tables"]
-BUDGET = {"quick": 400, "thorough": 3000}
+REQUIRED_FAMILIES = ["identity", "pruned", "preset", "tables", "all-rows"]
+BUDGET = {"quick": 900, "thorough": 6000}
 TOL_FACT = 1e-9
 RULE = (
     "Post-conditions attached to AtomGrid.__init__ (every construction in the process, including those made by from_pruned/"
@@ -29,7 +29,7 @@ RULE = (
     "rebuild (bit-identical), moved centre (translation only), other rotation (weights bit-identical, radii kept), shell grids, and "
     "factorisation of integrals of g(r) Y_lm for all l <= min(min degree, cap). family pruned: from_pruned with sector edges exactly on "
     "radial nodes / random, degrees or sizes. family preset: EVERY (preset, element) row of the 17 shipped tables (deterministic, "
-    "both tiers); thorough adds 3 more variants per row (other angular methods, other radial grids, nodes on sector edges). "
+    "both tiers); quick adds one rotating extra variant per row, thorough 5 more variants per row (other angular methods, other radial grids, nodes on/around sector edges, random radial grids). family all-rows: every supported (degree,size) row of the 4 methods used as a shell (thorough: all 450; quick: a rotating third of the rows below 6000 points). "
     "A case is non-trivial when at least one grid was built and evaluated."
 )
 ASSUMPTIONS = [
@@ -44,13 +44,15 @@ TECHNIQUE = "runtime monitoring: post-conditions on AtomGrid.__init__/get_shell_
 METHODS = ["lebedev", "spherical", "maxdet", "ahrens_beylkin"]
 RKINDS = ["gl-becke", "gc-knowles", "trap-linear", "uniform-power", "hand", "hand-r0-repeat"]
 WITNESS = [("sg_3", 14)]
+ROWS_PER_CASE = 6
+MAX_Y_ENTRIES = 8e6  # memory cap of the harmonic table used by the factorisation clause
 
 
 # --------------------------------------------------------------------------- cases
 def cases(tier, seed):
     out = []
-    n_id = 480 if tier == "quick" else 4800
-    n_pr = 240 if tier == "quick" else 2400
+    n_id = 800 if tier == "quick" else 12000
+    n_pr = 400 if tier == "quick" else 4800
     for k in range(n_id):
         m = METHODS[k % 4]
         rk = RKINDS[(k // 4) % len(RKINDS)]
@@ -59,9 +61,17 @@ def cases(tier, seed):
         out.append(("pruned", {"method": METHODS[k % 4], "mode": ["edges-on-nodes", "random", "sizes"][(k // 4) % 3], "k": k}, 3.0))
     for i, (p, z) in enumerate(presets_c05.all_pairs()):
         n = presets_c05.prescribed_size(p, z) or 60
-        variants = [0, 1 + (i + seed) % 3] if tier == "quick" else [0, 1, 2, 3]
+        variants = [0, 1 + (i + seed) % 3] if tier == "quick" else [0, 1, 2, 3, 4, 5]
         for v in variants:
             out.append(("preset", {"preset": p, "atnum": z, "variant": v}, 1.0 + n / 40.0))
+    for m in METHODS:
+        t = datafiles.table(m)
+        for j, a in enumerate(range(0, len(t), ROWS_PER_CASE)):
+            rows = t[a : a + ROWS_PER_CASE]
+            tot = sum(sz for _, sz in rows)
+            if tier == "quick" and (max(sz for _, sz in rows) > 6000 or (j + seed) % 3):
+                continue
+            out.append(("all-rows", {"method": m, "start": a, "stop": a + len(rows)}, 2.0 + tot / 2000.0))
     for p, z in WITNESS:
         out.append(("preset-witness", {"preset": p, "atnum": z}, 1e9))
     out.append(("tables", {}, 50.0))
@@ -149,7 +159,7 @@ def degree_cap(rng, method, tier):
 
 def make_request(rng, method, n, cap):
     """(kwargs for degrees/sizes, label)."""
-    kind = ["const", "vary", "sizes", "sizes-const"][int(rng.integers(0, 4))]
+    kind = ["const", "vary", "sizes", "sizes-const", "both"][int(rng.integers(0, 5))]
     cap_s = datafiles.resolve(method, degree=cap)[1]
     if kind == "const":
         d = int(rng.integers(0, cap + 1))
@@ -160,6 +170,8 @@ def make_request(rng, method, n, cap):
     if kind == "sizes":
         s = [int(v) for v in rng.integers(1, cap_s + 1, n)]
         return {"degrees": None, "sizes": s if rng.random() < 0.5 else np.array(s)}, kind
+    if kind == "both":  # documented: sizes win over degrees
+        return {"degrees": [int(rng.integers(0, cap + 1))], "sizes": [int(v) for v in rng.integers(1, cap_s + 1, n)]}, kind
     return {"degrees": None, "sizes": [int(rng.integers(1, cap_s + 1))]}, kind
 
 
@@ -207,7 +219,10 @@ def check_factorisation(ctx, at, subj, lcap):
     rng = ctx.rng
     method = at.method
     degs = [int(d) for d in at.degrees]
-    lmax = min(min(degs), lcap)
+    lmax = min(min(degs), lcap, int(np.sqrt(MAX_Y_ENTRIES / max(1, at.size))) - 1)
+    if lmax < 0:
+        ctx.count("factorisation-skipped-grid-too-large")
+        return
     bad = sorted({d for d in degs if not _sphere_exact(method, d, lmax)})
     if bad:
         ctx.observe("factorisation not evaluated: a shipped sphere of the grid is itself not exact (C02)", method=method, degrees=bad)
@@ -261,6 +276,8 @@ def run_case(ctx, family, params):
             _run_preset(ctx, params, witness=family == "preset-witness")
         elif family == "tables":
             _run_tables(ctx)
+        elif family == "all-rows":
+            _run_all_rows(ctx, params)
         elif family == "hostile":
             _run_hostile(ctx, params)
         else:
@@ -350,7 +367,7 @@ def _run_identity(ctx, p):
                     raise
 
     # factorisation
-    if at.size <= 400000:
+    if True:
         check_factorisation(ctx, at, subj, 14 if ctx.tier == "quick" or rng.random() < 0.8 else 30)
 
 
@@ -407,6 +424,9 @@ def _preset_rgrid(rng, preset, z, variant):
 
     row = presets_c05.table(preset)[z]
     n = presets_c05.prescribed_size(preset, z)
+    if variant >= 4:  # any of the workload's radial-grid kinds (of the prescribed size where one is prescribed)
+        kind = RKINDS[int(rng.integers(0, len(RKINDS)))]
+        return make_rgrid(rng, kind, n if n is not None else int(rng.integers(5, 90))), kind
     if n is not None:
         if variant in (0, 3):  # wide range: radii from 1e-4 to > 1e3 bohr
             base = GaussChebyshev(n) if variant == 0 else GaussLegendre(n)
@@ -437,7 +457,7 @@ def _run_preset(ctx, p, witness=False):
     rng = ctx.rng
     preset, z, v = p["preset"], int(p["atnum"]), int(p.get("variant", 0))
     h = zlib.crc32(f"{preset}:{z}:{v}".encode())
-    method = "lebedev" if v in (0, 2) else METHODS[1 + h % 3]
+    method = "lebedev" if v in (0, 2) else (METHODS[1 + h % 3] if v in (1, 3) else METHODS[h % 4])
     rgrid, rk = _preset_rgrid(rng, preset, z, v)
     kind = presets_c05.table(preset)[z]["kind"]
     if rgrid is None:
@@ -467,6 +487,38 @@ def _run_preset(ctx, p, witness=False):
         if not core.is_library_exception(exc):
             raise
         ctx.case_note("raised", f"{type(exc).__name__}: {exc}"[:120])
+
+
+def _run_all_rows(ctx, p):
+    """Every supported (degree, size) row of a method appears as a shell of an atomic grid (by degree or by size)."""
+    from grid.basegrid import OneDGrid
+
+    rng = ctx.rng
+    method = p["method"]
+    rows = datafiles.table(method)[p["start"] : p["stop"]]
+    n = len(rows)
+    r = np.sort(10 ** rng.uniform(-2, 1.5, n))
+    if rng.random() < 0.3:
+        r[0] = 0.0
+    rgrid = OneDGrid(r, rng.uniform(0.1, 1.0, n), (0, np.inf))
+    order = rng.permutation(n)
+    if (p["start"] // ROWS_PER_CASE) % 2:
+        req = {"degrees": None, "sizes": [int(rows[i][1]) for i in order]}
+    else:
+        req = {"degrees": [int(rows[i][0]) for i in order]}
+    center, _ = make_center(rng, ["unit", "big"][int(rng.integers(0, 2))])
+    rotate, _ = make_rotate(rng, n, ["0", "rand", "max"][int(rng.integers(0, 3))])
+    subj = f"{method}:{'rot' if rotate else 'norot'}:all-rows"
+    mon.set_tag(subj)
+    at = _build(ctx, subj, rgrid, req, center, rotate, method)
+    if at is None:
+        return
+    ctx.check("resolved-degree", subj + ":exact-rows", sorted(int(d) for d in at.degrees) == sorted(int(d) for d, _ in rows), sig="row-request-not-reproduced")
+    ctx.case_note("size", int(at.size))
+    ctx.count("angular-rows-used-as-shells", n)
+    for i in (0, n - 1):
+        at.get_shell_grid(i)
+        at.get_shell_grid(i, r_sq=False)
 
 
 def _run_tables(ctx):
